@@ -27,8 +27,14 @@ theorem rot_tables_ok : RotTablesOk env E fromRot = true := by decide +kernel
 theorem enum_rt_ok : EnumRTOk env E = true := by decide +kernel
 
 /-- all 35 field tables satisfy the side conditions of the re-encoding theorem (distinct names,
-matching decode/encode converters per kind, one-bit booleans, only the last field unaligned) -/
+matching decode/encode converters per kind, one-bit booleans, only the last field unaligned, a
+fixed-width text last field at least one character wide) -/
 theorem tables_rt : (Generated.classes.all fun p => TableRT E fromRot p.2) = true := by decide +kernel
+
+/-- the table of a class of the source satisfies the side conditions -/
+theorem table_rt (cls : String) (fs : List Field) (h : Generated.classes.lookup cls = some fs) :
+    TableRT E fromRot fs = true :=
+  List.all_eq_true.mp tables_rt (cls, fs) (lookup_mem _ _ _ h)
 
 /-- **C08 (idempotence).** For every class of the source and every payload on a field boundary:
 decoding, encoding the result and decoding again yields an identical message — except when the
@@ -40,7 +46,9 @@ theorem C08_idempotent (cls : String) (fs : List Field) (h : Generated.classes.l
     ∃ kv bits', seqDecode env bits 0 fs = .ok kv ∧
       toBitarray env fs { cls := cls, fields := kv } = .ok bits' ∧
       seqDecode env bits' 0 fs = .ok kv := by
-  sorry
+  obtain ⟨kv, bits', h1, h2, h3, _⟩ := msg_reencode env E fromRot tables_ok rot_tables_ok enum_rt_ok
+    cls fs (table_rt cls fs h) bits hb hpad
+  exact ⟨kv, bits', h1, h2, h3 hne⟩
 
 /-- **C08 (bit exactness).** Whenever no field was normalised, the re-encoded payload is bit for bit
 the received one — except for the four padding bits of type 21's 88-bit `name_ext` and ragged
@@ -49,7 +57,10 @@ theorem C08_bit_exact (cls : String) (fs : List Field) (h : Generated.classes.lo
     (bits : Bits) (hb : OnBoundary fs bits.length) (hpad : PadZero E fs bits)
     (hex : AllExact env E fromRot fs bits) (hr : ¬ RaggedTail E fs bits) :
     ∃ kv, seqDecode env bits 0 fs = .ok kv ∧ toBitarray env fs { cls := cls, fields := kv } = .ok bits := by
-  sorry
+  obtain ⟨kv, bits', h1, h2, _, h4⟩ := msg_reencode env E fromRot tables_ok rot_tables_ok enum_rt_ok
+    cls fs (table_rt cls fs h) bits hb hpad
+  rw [h4 hex hr] at h2
+  exact ⟨kv, h1, h2⟩
 
 /-- **Known finding F13, as a theorem about the model (negation witness).** A 40-bit type-14 message
 followed by one `@` character: the text decodes to `""`, is re-encoded as nothing, and the second
